@@ -336,6 +336,16 @@ def _check_complete_run(case, prog, impl, run, site, out):
     dt = _dt(case, c)
     n = su.n_steps(prog["t_tot"], dt)
     t_nuc, t_sol, t_fr = res["t_nuc"], res["t_sol"], res["t_fr"]
+    # whatever a completed run returns must be finite numbers
+    bad = [k for k, v in res.items() if v is None or not math.isfinite(v)]
+    for nm in ARRS:
+        a = np.asarray(snap[nm], dtype=float)
+        if a.size and not np.all(np.isfinite(a)):
+            bad.append(nm)
+    if bad:
+        out.append(Failure(clause="complete_or_raise", key=f"non_finite_result|{site}|{'+'.join(bad)}",
+                           detail=f"run() returned but these outputs are not finite: {bad} (results {res})"))
+        return
     if not close(t_fr, t_nuc + t_sol):
         out.append(Failure(clause="tfr_eq", key=f"tfr_eq|{site}|", detail=f"t_fr {t_fr} != t_nuc {t_nuc} + t_sol {t_sol}"))
     lim = (n - 1) * dt / 60.0
@@ -719,7 +729,16 @@ def cases_two_objects(tier="thorough"):
     return [a] if tier == "quick" else [a, b]
 
 
+def cases_unstable():
+    """a shelf coefficient far beyond the stability range of the grid (1D, 5 cm, s0 = 10 000): the field turns
+    non-finite before 90 % is frozen - the run must raise, never report times and NaN histories"""
+    return [dict(dim="1D", config="shelf", height=0.05, k_s0=10000, t_tot=6000, start=20, stop=-50, rate=0.5, holds=None,
+                 cnTemp=None, Frand=0.5, kind="unstable-coefficient")]
+
+
 def cases(rng, tier):
+    for c in cases_unstable():
+        yield c
     for c in cases_two_objects(tier):
         yield c
     for c in cases_thaw_refreeze(tier):
